@@ -721,17 +721,25 @@ pub fn run_traced(id: u64, input: &[u8], cfg: &RunCfg) {
     let expect = EXPECT.with(|c| c.borrow().clone());
     COLLECTED.with(|c| c.borrow_mut().clear());
     RUN_FAILED.with(|c| c.set(false));
-    trace::rec(json!({"ev":"reset","kind":"parser","id":id,"group":group,
+    // a document of many kilobytes (a line longer than the writer's buffer): TLC would spend minutes per specification
+    // on its per-event records, so it is only held to the rendering (Trace_Render), not parsed under trace
+    let long = input.len() > 4096;
+    let written = expect.is_some();
+    let expect_b = expect.as_ref().map_or(json!([]), |e| Value::Array(e.as_array().unwrap().iter().map(|it| atoms_as_bytes(it, true)).collect()));
+    let expect = if long { None } else { expect };
+    trace::rec(json!({"ev":"reset","kind":"parser","id":id,"group":group,"long":long,
         "corrupt":cor.is_some(),"cline":cor.map_or(0, |c| c.0),"clo":cor.map_or(0, |c| c.1),"chi":cor.map_or(0, |c| c.2),
         "ckind":cor.map_or("", |c| c.3),
-        "has_expect":expect.is_some(),"written":expect.is_some(),
-        "expect_b": expect.as_ref().map_or(json!([]), |e| Value::Array(e.as_array().unwrap().iter().map(|it| atoms_as_bytes(it, true)).collect())),
+        "has_expect":expect.is_some(),"written":written,
+        "expect_b": expect_b,
         "expect":expect.unwrap_or(json!([])),"parser":cfg.parser,"lit":cfg.lit,"flag":cfg.flag,
         "input":bytes_json(input),"limit":limit,"faulty":cfg.fault.is_some(),"chunk":cfg.chunk,
         "policy":policy_json(&cfg.policy),"lines": matches!(cfg.policy, Policy::Lines), "intr":cfg.intr_pm > 0,
         "ref":cfg.is_ref,"build":cfg.build,"bufreader":cfg.bufreader.is_some() || cfg.ctor == 2,"ctor":cfg.ctor}));
-    let reader = make_input(input, cfg);
-    dispatch(reader, cfg);
+    if !long {
+        let reader = make_input(input, cfg);
+        dispatch(reader, cfg);
+    }
     trace::rec(json!({"ev":"pend"}));
 }
 
